@@ -197,8 +197,34 @@ class Gen:
             v = r.choice([0, 1, 499999999, 500000000, 500000001, 0xFFFFFFFF, 0xFFFF, 0x10000, 1 << 22, (1 << 22) | 0xFFFF,
                           (1 << 22) | 5, 5, 1 << 31, (1 << 31) | 5, -1, 1 << 32, (1 << 39) - 1, 1 << 39])
             ss = b""
-            spk = push_data(num_encode(v)) + r.choice([b"\xb1", b"\xb2"]) + r.choice([b"", b"\x75\x51", b"\x69\x51"])
+            op = r.choice([b"\xb1", b"\xb2"])
+            spk = push_data(num_encode(v)) + op + r.choice([b"", b"\x75\x51", b"\x69\x51"])
             tag = "bare:locktime"
+            case = self._case(tag, spk, ss)
+            if r.random() < 0.65:
+                # the transaction's own field next to the operand: same unit with the count one below / equal / one above,
+                # the bits BIP68 ignores set at random (they must not take part in the comparison), the other unit, the
+                # disable bit, the final sequence that switches nLockTime off
+                tin = case.tx.vin[case.n_in]
+                rel = r.choice([-1, 0, 0, 1])
+                if op == b"\xb2":
+                    base = v & 0xFFFFFFFF if v >= 0 else 5
+                    seq = (base & (1 << 22)) | ((base & 0xFFFF) + rel) & 0xFFFF
+                    if r.random() < 0.5:
+                        seq |= r.getrandbits(31) & ~((1 << 22) | 0xFFFF)
+                    if r.random() < 0.15:
+                        seq ^= 1 << 22
+                    if r.random() < 0.1:
+                        seq |= 1 << 31
+                    tin.sequence = seq
+                    case.tx.version = r.choice([1, 2, 2, 2, 3, 0xFFFFFFFF])
+                else:
+                    case.tx.lock_time = min(max((v if 0 <= v < 1 << 32 else 500000000) + rel, 0), 0xFFFFFFFF)
+                    if r.random() < 0.15:
+                        case.tx.lock_time = (case.tx.lock_time + 500000000) % (1 << 32)
+                    tin.sequence = r.choice([0, 0xFFFFFFFE, 0xFFFFFFFE, 0xFFFFFFFF, r.getrandbits(32)])
+                case.note["locktime"] = "paired"
+            return case
         return self._case(tag, spk, ss)
 
     def arith_script(self) -> bytes:
